@@ -1,13 +1,14 @@
 #!/bin/sh
 # seedtest.sh <seed-dir-name> <property> [tier]: apply a seeded change to a scratch worktree of /repo (never to
 # /repo itself), run the property's check against it (VERIF_REPO), remove the worktree.
+here=$(cd "$(dirname "$0")" && pwd)
 seed=$1; prop=$2; tier=${3:-quick}
 wt=/tmp/wt-seedtest-$$
-git -C /repo worktree add -q $wt HEAD || exit 9
-( cd $wt && git apply /verif/seeded/$seed/patch.diff ) || { echo "patch does not apply"; git -C /repo worktree remove --force $wt; exit 9; }
-ev=/verif/evidence/$prop.json
+git -C /repo worktree add -q --detach $wt HEAD || exit 9
+( cd $wt && git apply $here/seeded/$seed/patch.diff ) || { echo "patch does not apply"; git -C /repo worktree remove --force $wt; exit 9; }
+ev=$here/evidence/$prop.json
 cp $ev /tmp/ev-keep-$$.json 2>/dev/null
-cd /verif && VERIF_REPO=$wt ./check $prop $tier > /tmp/seedtest-$seed-$prop.out 2>&1; rc=$?
+cd $here && VERIF_REPO=$wt ./check $prop $tier > /tmp/seedtest-$seed-$prop.out 2>&1; rc=$?
 cp /tmp/ev-keep-$$.json $ev 2>/dev/null; rm -f /tmp/ev-keep-$$.json   # evidence files only ever describe /repo itself
 git -C /repo worktree remove --force $wt
 echo "seed=$seed prop=$prop tier=$tier exit=$rc $(grep -c '^VIOLATION' /tmp/seedtest-$seed-$prop.out) violation lines; $(grep '^check ' /tmp/seedtest-$seed-$prop.out)"
